@@ -7,12 +7,14 @@ package chainx
 import (
 	"context"
 	"math/big"
+	"strings"
 
 	"gitlab.com/aquachain/aquachain/aquadb"
 	"gitlab.com/aquachain/aquachain/common"
 	"gitlab.com/aquachain/aquachain/consensus/aquahash"
 	"gitlab.com/aquachain/aquachain/core"
 	"gitlab.com/aquachain/aquachain/core/types"
+	"gitlab.com/aquachain/aquachain/core/vm"
 	"gitlab.com/aquachain/aquachain/crypto"
 	"gitlab.com/aquachain/aquachain/params"
 	"verifharness/hx"
@@ -144,6 +146,7 @@ func NewRichTree(o RichOpts) *RichTree {
 		alloc[c.Addr] = acc
 	}
 	alloc[ProbeAddr] = core.GenesisAccount{Balance: big.NewInt(1), Code: CodeProbe}
+	alloc[BlockhashAddr] = core.GenesisAccount{Balance: big.NewInt(1), Code: CodeBlockhash()}
 	gl := uint64(4712388)
 	if o.GasLimit != 0 {
 		gl = o.GasLimit
@@ -525,4 +528,93 @@ func (t *RichTree) AddBigBlock(r *hx.Rng, parent int, n int) *Node {
 		}
 		return out
 	})
+}
+
+// ---- hand-built blocks (ApplyTransaction + engine.Finalize on a real chain): needed for BLOCKHASH, which GenerateChain cannot run ----
+
+// BlockhashAddr holds CodeBlockhash in the genesis of every RichTree (never called by random blocks).
+var BlockhashAddr = common.BytesToAddress([]byte{0xc1, 0xfe})
+
+// CodeBlockhash: SSTORE(k, BLOCKHASH(NUMBER - k)) for k = 1..8.
+func CodeBlockhash() []byte {
+	var code []byte
+	for k := byte(1); k <= 8; k++ {
+		code = append(code, 0x60, k, 0x43, 0x03, 0x40, 0x60, k, 0x55)
+	}
+	return append(code, 0x00)
+}
+
+// builderChain returns a FRESH archive node holding exactly the ancestry of node `upTo` (no competing branches: the builder's
+// view of the chain is the branch it builds on).
+func (t *RichTree) builderChain(upTo int) (*core.BlockChain, aquadb.Database) {
+	bc, db := t.NewChain(&core.CacheConfig{Disabled: true})
+	if p := t.Path(upTo); len(p) > 0 {
+		if _, err := bc.InsertChain(p); err != nil {
+			panic("builder chain refused the ancestry: " + err.Error())
+		}
+	}
+	return bc, db
+}
+
+// AddHandBuilt builds one block on `parent` the way the miner does — header, engine.Prepare, ApplyTransaction per transaction
+// with a real chain context (so BLOCKHASH works), engine.Finalize — `dt` seconds after the parent.
+func (t *RichTree) AddHandBuilt(parent int, dt int64, kind string, build func(nonce func(common.Address) uint64) []*types.Transaction) *Node {
+	bc, bdb := t.builderChain(parent)
+	defer bc.Stop()
+	p := t.Nodes[parent]
+	id := len(t.Nodes)
+	num := new(big.Int).Add(p.Block.Number(), common.Big1)
+	coinbase := common.Address{0xc0, byte(id)}
+	header := &types.Header{ParentHash: p.Block.Hash(), Number: num, GasLimit: core.CalcGasLimit(p.Block), Extra: []byte{byte(id >> 8), byte(id)},
+		Time: new(big.Int).Add(p.Block.Time(), big.NewInt(dt)), Coinbase: coinbase, Version: t.Cfg.GetBlockVersion(num)}
+	eng := aquahash.NewFaker()
+	if err := eng.Prepare(bc, header); err != nil {
+		panic(err)
+	}
+	st, err := bc.StateAt(p.Block.Root())
+	if err != nil {
+		panic(err)
+	}
+	gp := new(core.GasPool).AddGas(header.GasLimit)
+	var receipts types.Receipts
+	var txids []int
+	var kinds []string
+	txs := build(st.GetNonce)
+	for i, tx := range txs {
+		st.Prepare(tx.Hash(), common.Hash{}, i)
+		rc, _, err := core.ApplyTransaction(t.Cfg, bc, &coinbase, gp, st, header, tx, &header.GasUsed, vm.Config{})
+		if err != nil {
+			panic("hand-built block: " + err.Error())
+		}
+		receipts = append(receipts, rc)
+		h := tx.Hash()
+		if _, ok := t.txIndex[h]; !ok {
+			t.txIndex[h] = len(t.Txs)
+			t.Txs = append(t.Txs, tx)
+		}
+		txids = append(txids, t.txIndex[h])
+		kinds = append(kinds, kind)
+	}
+	block, err := eng.Finalize(bc, header, st, txs, nil, receipts)
+	if err != nil {
+		panic(err)
+	}
+	if _, err := bc.InsertChain(types.Blocks{block}); err != nil {
+		panic("hand-built block refused by its builder: " + err.Error())
+	}
+	// make the new state available in the generator database (content-addressed entries only: trie nodes and code)
+	mdb := bdb.(*aquadb.MemDatabase)
+	for _, k := range mdb.Keys() {
+		if len(k) == 32 || strings.HasPrefix(string(k), "secure-key-") {
+			v, _ := mdb.Get(k)
+			t.gendb.Put(k, v)
+		}
+	}
+	n := &Node{ID: id, Parent: parent, Block: block, Receipts: receipts, TxIDs: txids}
+	t.Nodes = append(t.Nodes, n)
+	p.Children = append(p.Children, id)
+	t.ByHash[block.Hash()] = id
+	t.Contracts[id] = append([]Contract{}, t.Contracts[parent]...)
+	t.Kinds[id] = kinds
+	return n
 }
